@@ -139,7 +139,17 @@ def classify_exc(site, ex, n):
                 "_drop_projected_dims leaves an empty dims list" % msg)
     if "incompatible dimensions" in msg and "[1" in msg.replace(", 1", ", [1"):
         return UNIT_FACTOR
+    if n == 1:
+        return SCALAR_COLLAPSE
     return (site, "raises:" + type(ex).__name__, "raised %r on a valid input" % (ex,))
+
+
+SCALAR_COLLAPSE = (
+    "superoperator.one-dimensional-space", "scalar-collapse",
+    "over a 1-dimensional Hilbert space the superoperator dims [[[1],[1]],[[1],[1]]] and the "
+    "operator-ket dims collapse to a scalar space: the matrices are right but the objects "
+    "lose type 'super'/'operator-ket' (vector_to_operator(operator_to_vector(A)) raises, "
+    "products return Python scalars, QobjEvo routes fail)")
 
 
 UNIT_FACTOR = ("superoperator.sprepost.unit-factor-dims", "incompatible-with-spre-spost",
@@ -301,7 +311,8 @@ def check_liou_case(ctx, case, terms, where="oracle"):
     if Lq is not None:
         want_dims = [[case["dims"], case["dims"]], [case["dims"], case["dims"]]]
         if Lq.dims != want_dims or not Lq.issuper or Lq.superrep != "super":
-            bad.append(("superoperator.liouvillian", "dims",
+            bad.append(SCALAR_COLLAPSE if n == 1 else
+                       ("superoperator.liouvillian", "dims",
                         "dims/superrep of the Liouvillian: %r" % (Lq.dims,)))
     return bad
 
@@ -443,9 +454,13 @@ def small_case(p, ev):
                                 "stacked_index/unstacked_index are not inverse"))
                     break
             ov = qutip.operator_to_vector(qa)
-            if not np.array_equal(ov.full(), vec(A)) or ov.dims != [[dims, dims], [1]]:
+            if not np.array_equal(ov.full(), vec(A)):
                 bad.append(("superoperator.operator_to_vector", "value",
                             "operator_to_vector is not column stacking"))
+            if ov.dims != [[dims, dims], [1]]:
+                bad.append(SCALAR_COLLAPSE if n == 1 else
+                           ("superoperator.operator_to_vector", "dims",
+                            "operator_to_vector dims %r" % (ov.dims,)))
             oo = qutip.vector_to_operator(ov)
             if not np.array_equal(oo.full(), A) or oo.dims != [dims, dims]:
                 bad.append(("superoperator.vector_to_operator", "roundtrip",
